@@ -100,6 +100,9 @@ func genGrp(r *Rng, tier string) *Enc {
 	if list {
 		keys = append([]string{}, knames[:r.Range(1, nk)]...)
 		if r.Chance(8) {
+			keys = append(keys, keys[0]) // the same column named twice in the key list
+		}
+		if r.Chance(8) {
 			keys = append(keys, "zz")
 		}
 		if r.Chance(4) {
@@ -109,6 +112,9 @@ func genGrp(r *Rng, tier string) *Enc {
 		keys = []string{Pick(r, knames)}
 		if r.Chance(8) {
 			keys = []string{"zz"}
+		}
+		if nk >= 2 && r.Chance(5) {
+			keys = []string{knames[0] + Pick(r, []string{",", ", "}) + knames[1]} // names no column, though its parts do
 		}
 	}
 	e.Tok("F")
